@@ -64,7 +64,27 @@ type BlockExecutor struct {
 	procInterrupt atomic.Bool    // interrupt signaler for block processing
 
 	// cache the verification results over a single height
-	cache map[common.Hash]struct{}
+	cache map[validationKey]struct{}
+}
+
+// validationKey identifies a validated block in the verification cache. The block hash commits to the
+// last commit only through its signatures, so the remaining commit fields that validation reads are
+// part of the key.
+type validationKey struct {
+	hash          common.Hash
+	commitHeight  uint64
+	commitRound   uint32
+	commitBlockID string
+}
+
+func newValidationKey(block *types.Block) validationKey {
+	key := validationKey{hash: block.Hash()}
+	if lastCommit := block.LastCommit(); lastCommit != nil {
+		key.commitHeight = lastCommit.Height
+		key.commitRound = lastCommit.Round
+		key.commitBlockID = lastCommit.BlockID.Key()
+	}
+	return key
 }
 
 // NewBlockExecutor returns a new BlockExecutor with a NopEventBus.
@@ -77,7 +97,7 @@ func NewBlockExecutor(stateStore Store, logger log.Logger, evpool EvidencePool, 
 		quit:   make(chan struct{}),
 
 		logger: logger,
-		cache:  make(map[common.Hash]struct{}),
+		cache:  make(map[validationKey]struct{}),
 	}
 }
 
@@ -91,15 +111,15 @@ func (blockExec *BlockExecutor) SetEventBus(b *types.EventBus) {
 // Validation does not mutate state, but does require historical information from the stateDB,
 // ie. to verify evidence from a validator at an old height.
 func (blockExec *BlockExecutor) ValidateBlock(state LatestBlockState, block *types.Block) error {
-	hash := block.Hash()
-	if _, ok := blockExec.cache[hash]; ok {
+	key := newValidationKey(block)
+	if _, ok := blockExec.cache[key]; ok {
 		return nil
 	}
 
 	if err := validateBlock(blockExec.evpool, blockExec.store, state, block); err != nil {
 		return err
 	}
-	blockExec.cache[hash] = struct{}{}
+	blockExec.cache[key] = struct{}{}
 	return nil
 }
 
@@ -147,7 +167,7 @@ func (blockExec *BlockExecutor) ApplyBlock(state LatestBlockState, blockID types
 	fail.Fail() // XXX
 
 	// clear the verification cache
-	blockExec.cache = make(map[common.Hash]struct{})
+	blockExec.cache = make(map[validationKey]struct{})
 
 	// Events are fired after everything else.
 	// NOTE: if we crash between Commit and Save, events wont be fired during replay
